@@ -39,6 +39,11 @@ def check(pid, tier, args):
                              "declared": "8 chromaticities per space against the published values at their published digits",
                              "lattice": "%s over [-1,2]^3 + seeded multiples of 2^-10, linearity (1e-6 + 4*2^-24)*max(1,sum|v|), both round trips 2e-6*max(1,max|v|)" % (
                                  "5^3" if tier == "quick" else "33^3")}
+    elif pid == "C12":
+        run.cov["bounds"] = {"white_points": "11 CIE illuminants (xyY) + 8 given as XYZ: all ordered pairs; %s chromaticity grid over [0.2,0.5]^2 squared; all 1331 triples of the illuminants for composition" % (
+                                 "6x6" if tier == "quick" else "16x16"),
+                             "coefficients": "within 1e-9 of the exact Bradford matrix built from the XYZ the library works with; xyY->XYZ conversion checked separately",
+                             "apply": "linearity on seeded colours in [-1,2]^3"}
     else:
         run.cov["bounds"] = {"published_spaces": 20, "seeded_triangles": 150 if tier == "quick" else 20000,
                              "matrices": "dyadic entries k/2^20 in [-4,4], |det| >= 1e-3; singular from repeated/zero columns"}
